@@ -148,6 +148,12 @@ func c14(c *Ctx) {
 	// (the order "fetch, then create the local database" is no longer required: since F35 an empty local
 	// database left behind by a failed download is replaced on the next sync like any database that is behind.)
 	c.pageSizeBeforeCreate("restore")
+	{
+		alive := G(`^\(context\.Context\.Err\(p1\) == nil\)$|^\(nil == context\.Context\.Err\(p1\)\)$`, true)
+		rsf := "litefs.(*Store).restoreDBFromBackup"
+		c.GuardedFrom("restore/role-rechecked-under-the-lock", rsf, p.PlainCalls("litefs.(*DB).AcquireWriteLock"), p.PlainCalls("litefs.(*DB).recover", "litefs.(*DB).WriteLTXFileAt", "litefs.(*DB).ApplyLTXNoLock"), gs(alive), 3,
+			"between taking the write lock and recovering, publishing or applying anything, the restore consults its (primary-scoped) context again", "F61: AcquireWriteLock tries the lock before it looks at the context and the file backup client never looks at it: a node demoted while a restore was in flight still published the service's snapshot and moved its position without being primary")
+	}
 	c.Before("restore/lock-first", rs, p.PlainCalls("litefs.(*DB).recover", "litefs.(*DB).WriteLTXFileAt", "litefs.(*DB).ApplyLTXNoLock"), p.PlainCalls("litefs.(*DB).AcquireWriteLock"), 3, "recover, write and apply run under the write lock", "C11")
 	c.Before("restore/recover-before-write", rs, p.PlainCalls("litefs.(*DB).WriteLTXFileAt"), p.PlainCalls("litefs.(*DB).recover"), 1, "pending journal/WAL state is cleared before the snapshot is written", "")
 	c.Before("restore/write-before-apply", rs, p.PlainCalls("litefs.(*DB).ApplyLTXNoLock"), p.PlainCalls("litefs.(*DB).WriteLTXFileAt"), 1, "the snapshot is published as an LTX file before it is applied", "")
@@ -270,6 +276,31 @@ func c14(c *Ctx) {
 	}
 
 	// ---- service side: lfsc client ----
+	{
+		nr := p.PlainCalls("lfsc.(*BackupClient).newRequest")
+		c.OnlyIn("lfsc/cluster-param/requesters", nr, []string{pat("lfsc.(*BackupClient).PosMap"), pat("lfsc.(*BackupClient).WriteTx"), pat("lfsc.(*BackupClient).FetchSnapshot")}, 3,
+			"requests to the service are built by PosMap, WriteTx and FetchSnapshot", "the three must address the same cluster")
+		for _, short := range []string{"PosMap", "WriteTx", "FetchSnapshot"} {
+			fn := c.F("lfsc.(*BackupClient)." + short)
+			// the query value handed to newRequest
+			var qv ssa.Value
+			for _, in := range Instrs(fn, nr) {
+				if v := callVals(in); len(v) > 3 {
+					qv = v[3]
+				}
+			}
+			setCluster := func(in ssa.Instruction) bool {
+				if !p.PlainCalls("net/url.(Values).Set")(in) {
+					return false
+				}
+				v := callVals(in)
+				return len(v) == 3 && qv != nil && v[0] == qv && p.Render(v[1]) == "\"cluster\"" && p.Render(v[2]) == "p0.Cluster"
+			}
+			c.BeforeG("lfsc/cluster-param/"+short, "lfsc.(*BackupClient)."+short, nr, setCluster, gs(GP("(\"\" == p0.Cluster)", true)), 1,
+				short+" puts the configured cluster into the very query it sends (unless none is configured)",
+				"positions read from and uploads sent to cluster C, but the snapshot to adopt requested from the default cluster: every sync fails with 404, or the primary adopts another cluster's database of the same name")
+		}
+	}
 	lw := "lfsc.(*BackupClient).WriteTx"
 	c.ErrHandled("lfsc/request-error", lw, p.PlainCalls("lfsc.(*BackupClient).doRequest"), p.PlainCalls("ltx.ParseTXID"), 1, "a failed request yields no mark", "")
 	c.ExpectAll("lfsc/hwm-from-header", c.CallArgs(lw, p.PlainCalls("ltx.ParseTXID"), 0), pat("net/http.(Header).Get(lfsc.(*BackupClient).doRequest(@@)#0.Header, \"Litefs-Hwm\")"), 1, "the mark is parsed from the response's Litefs-Hwm header", "")
